@@ -88,7 +88,7 @@ def parse_spelled(text):
 
 class CompGen:
     def __init__(self, rng, name="C", size=8, port_lens=(4, 6), nports=(1, 1), zero_prob=0.12, max_depth=4,
-                 satisfiable=True, allow_kinetic=True, fancy_names=True, wild_prob=0.25, cover_strands=False):
+                 satisfiable=True, allow_kinetic=True, fancy_names=True, wild_prob=0.25, cover_strands=False, allow_domain=True):
         self.rng = rng
         self.name = name
         self.size = size
@@ -101,6 +101,7 @@ class CompGen:
         self.fancy = fancy_names
         self.wild_prob = wild_prob
         self.cover_strands = cover_strands
+        self.allow_domain = allow_domain
         self.used = set()
         self.seqs = {}      # name -> dict(len, sup(bool), items(list of (name, rev) for sup), nucs(list of (dom, idx, comp)), segs)
         self.order = []
@@ -352,7 +353,7 @@ class CompGen:
         choice = rng.random()
         domain = False
         text = None
-        if choice < 0.2:
+        if choice < 0.2 and getattr(self, "allow_domain", True):
             # domain-level if every item of every strand has a uniform symbol
             dom = []
             ok = True
@@ -530,6 +531,8 @@ class Bundle:
         self.includes = []
         self.nargs = 0
         self.templates = {}  # relative path (without ext) -> generator info
+        self.asts = {}       # relative path (with ext) -> AST as generated (component files only)
+        self.inst_keys = {}  # relative path (with ext) -> keys of self.files instantiating it
 
 
 def gen_component_bundle(rng, size=8, **kw):
@@ -538,6 +541,8 @@ def gen_component_bundle(rng, size=8, **kw):
     b = Bundle()
     b.texts["top.comp"] = render_comp(ast, rng)
     b.files["top.comp@"] = strip_private(ast)
+    b.asts["top.comp"] = ast
+    b.inst_keys["top.comp"] = ["top.comp@"]
     b.entry = "top"
     b.gen = g
     return b
@@ -559,6 +564,7 @@ def gen_system_bundle(rng, depth=1, size=6, n_templates=2, **kw):
                 "ins": [(g.seqs[p["seq"]]["len"], p["star"]) for p in ast["inputs"]],
                 "outs": [(g.seqs[p["seq"]]["len"], p["star"]) for p in ast["outputs"]]}
         b.texts[path + ".comp"] = render_comp(ast, rng)
+        b.asts[path + ".comp"] = ast
         return info
 
     for i in range(n_templates):
@@ -653,6 +659,8 @@ def gen_system_bundle(rng, depth=1, size=6, n_templates=2, **kw):
     def inst2(info, pfx, top_level):
         key = os.path.normpath(info["path"] + (".sys" if info["kind"] == "sys" else ".comp")) + "@" + ("" if top_level else pfx[:-1])
         b.files[key] = strip_private(info["ast"])
+        if info["kind"] == "comp":
+            b.inst_keys.setdefault(info["path"] + ".comp", []).append(key)
         if info["kind"] == "sys":
             for s in info["ast"]["stmts"]:
                 if s["k"] == "component":
@@ -691,3 +699,15 @@ def write_bundle(b, root):
 def compile_request(b, fmt="pil", anon=0, fixed=None):
     return {"op": "compile", "files": b.files, "exists": exists_list(b), "entry": b.entry, "nargs": b.nargs,
             "includes": b.includes, "anon": anon, "format": fmt, "fixed": fixed or []}
+
+
+def set_component(b, relpath, ast, rng):
+    """replace one component file of a bundle by a new AST (text re-rendered, every instance updated)"""
+    import copy
+    b2 = copy.copy(b)
+    b2.texts = dict(b.texts); b2.files = dict(b.files); b2.asts = dict(b.asts)
+    b2.texts[relpath] = render_comp(ast, rng)
+    b2.asts[relpath] = ast
+    for k in b.inst_keys.get(relpath, []):
+        b2.files[k] = strip_private(ast)
+    return b2
